@@ -167,6 +167,61 @@ def unpack_branches(prog, unpack_obj: ast.FunctionDef):
                     b.role = role
                     break
             out.append(b)
+    # a sub-type handled as the fall-through tail (`if subtype != K: raise` ... code for K): the statements reachable when
+    # subtype == K and under no other sub-type form its branch
+    from .. import logic
+    from ..cfg import CFG
+
+    seen_vals = {b.subtype_value for b in out}
+    tails = []
+    for cmp_ in [n for n in ast.walk(unpack_obj) if isinstance(n, ast.Compare) and len(n.ops) == 1 and isinstance(n.ops[0], ast.NotEq) and isinstance(n.left, ast.Name)]:
+        try:
+            v = prog.fold(module, cmp_.comparators[0])
+        except NotConst:
+            continue
+        if isinstance(v, int) and v not in seen_vals and (var is None or cmp_.left.id == var):
+            tails.append((cmp_, v))
+            var = var or cmp_.left.id
+    if tails:
+        cfg = CFG(unpack_obj)
+        all_vals = sorted(seen_vals | {v for _, v in tails})
+
+        def reach_for(k):
+            def valuation(atom):
+                try:
+                    e = ast.parse(atom, mode="eval").body
+                except SyntaxError:
+                    return None
+                if isinstance(e, ast.Compare) and len(e.ops) == 1 and isinstance(e.ops[0], ast.Eq):
+                    for a, b_ in ((e.left, e.comparators[0]), (e.comparators[0], e.left)):
+                        if isinstance(a, ast.Name) and a.id == var:
+                            try:
+                                return prog.fold(module, b_) == k
+                            except NotConst:
+                                return None
+                return None
+            return logic.reachable_assuming(cfg, cfg.entry, valuation)
+
+        reach = {k: reach_for(k) for k in all_vals + [None]}
+        for cmp_, k in tails:
+            others = set().union(*[reach[o] for o in all_vals + [None] if o != k])
+            own = reach[k] - others
+            stmts = [cfg.nodes[i].ast for i in sorted(own) if cfg.nodes[i].ast is not None and isinstance(cfg.nodes[i].ast, ast.stmt)]
+            top = [st for st in stmts if not any(st is not o and any(x is st for x in ast.walk(o)) for o in stmts)]
+            top.sort(key=lambda n: getattr(n, "_ord", n.lineno))
+            if not top:
+                continue
+            syn = ast.If(test=ast.Compare(left=ast.Name(id=var, ctx=ast.Load()), ops=[ast.Eq()], comparators=[cmp_.comparators[0]]), body=top, orelse=[])
+            ast.copy_location(syn, top[0])
+            syn._module = module
+            syn._synthetic = True
+            b = UnpackBranch(cmp_.comparators[0], k, syn)
+            body = [n for s0 in top for n in ast.walk(s0)]
+            for role, pred in ROLE_MARKERS:
+                if pred(body, prog, module):
+                    b.role = role
+                    break
+            out.append(b)
     return var, out
 
 
